@@ -148,6 +148,30 @@ def run(ctx):
                         ev = eval_enumerators(f['text'])
                         if [v for _, v in ev] != list(range(len(names))) or len(ev) != len(names):
                             ctx.add_violation({'kind': 'enum-ordinals', 'generator': g}, '%s: enum items %s for %s' % (g, ev, names), {'items': d, 'text': f['text']})
+    # ---- the files the real pipeline writes (several flags types per run: the numbering of one type must not depend on the types rendered before it)
+    from ..common import run_impl
+    gcases = [{'files': c['files'], 'options': {'generate': dict(FULL, support_lib_sources=False)}, 'keep_content': True, 'timeout_s': 120,
+               'ops': [['parse', 'a.djinni'], ['generate', 'cpp'], ['generate', 'objc'], ['generate', 'cppcli']]} for c in cases[:ctx.n(6, 40)]]
+    ok, gres = run_impl('gen_run', {'cases': gcases}, timeout=3000)
+    if not ok:
+        ctx.broken.append({'kind': 'harness', 'name': 'gen_run driver', 'detail': str(gres)[-1200:]}); return
+    dist['generated_flag_enumerations'] = 0
+    for gc, go in zip(gcases, gres['results']):
+        if 'steps' not in go:
+            ctx.broken.append({'kind': 'harness', 'name': 'gen_run case', 'detail': json.dumps(go)[:600]}); continue
+        for path, text in sorted(go['tree'].items()):
+            gen_ = path.split('/')[1] if path.startswith('out/') else None
+            if gen_ not in ('cpp', 'objc', 'cppcli') or not re.search(r'1u\s*<<', text):
+                continue
+            for m_ in re.finditer(r'(?:enum class \w+[^{;]*|NS_OPTIONS\(\w+, \w+\)\s*)\{(.*?)\n\}', text, re.S):
+                shifts = [int(x) for x in re.findall(r'1u\s*<<\s*(\d+)', m_.group(1))]
+                if not shifts:
+                    continue
+                dist['generated_flag_enumerations'] += 1
+                if shifts != list(range(len(shifts))):
+                    ctx.add_violation({'kind': 'flag-bits-in-generated-file', 'generator': gen_},
+                                      '%s: the ordinary flags of one type are numbered %s in the file the pipeline wrote (must be 0, 1, 2, ... per type)' % (path, shifts),
+                                      {'files': gc['files'], 'path': path, 'text': text[:1500]})
     mm = [{'fragment': m['fragment'], 'decl': m['decl'], 'impl_text': m['text'], 'files': m['files']} for m in (mism or [])]
     ctx.add_corr('K-jinja/enums', len(flat), len({(f['decl'], json.dumps(f['files'])) for f in flat}), mm,
                  [{'fragment': flat[0]['fragment'], 'text': flat[0]['text']}] if flat else [], dist,
